@@ -150,7 +150,8 @@ def check(fb, ctx):
         sub = [n for n in find_all(h["body"], lambda n: n.get("k") == "assignop" and n["op"] == "SubAssign" and field_of(n["lhs"], "limits", "max_time") and hirq.is_lid(strip(n["rhs"]), exec_ids))]
         # equivalent: `max_time: <limits>.max_time - execution_time` in a struct literal / a let
         sub += [n for n in find_all(h["body"], lambda n: n.get("k") == "binary" and n.get("op") == "Sub" and field_of(n["a"], "limits", "max_time") and hirq.is_lid(strip(n["b"]), exec_ids))]
-        order_ok = bool(guard) and bool(sub) and guard[0]["ln"] < sub[0]["ln"]
+        pos = lambda n_: (n_["ln"], n_.get("ln0", 0))     # inlined nodes share the call site's line: their own line breaks the tie
+        order_ok = bool(guard) and bool(sub) and pos(guard[0]) < pos(sub[0])
         ctx.check(order_ok, "ACCOUNT", f"Authorizer::{fn}: remaining time computed after the `>=` guard", f"ACCOUNT|{fn}|time", "`limits.max_time -= execution_time` must follow `if execution_time >= limits.max_time { return Err(Timeout) }`", f"{b['file']}:{b['line']}")
     # time consumed by a run that FAILED also counts ("counted cumulatively across run, authorize and query calls"): every path
     # from World::run_with_limits to a return of Authorizer::run stores something into self (execution_time / limits)
